@@ -83,9 +83,12 @@ Definition ref_ok (p : lchar) : bool :=
   end.
 (* which characters may stand literally in character data (production [14] CharData, section 2.11) ... *)
 Definition lit_ok_text (c : N) : bool := negb ((c =? c_lt) || (c =? c_amp) || (c =? c_cr)).
-(* ... and in an attribute value quoted with [q] (production [10]; literal TAB/LF/CR would be normalised, 3.3.3) *)
-Definition lit_ok_att (q c : N) : bool :=
-  negb ((c =? c_lt) || (c =? c_amp) || (c =? q) || (c =? 9) || (c =? 10) || (c =? 13)).
+(* ... and in an attribute value quoted with [q] (production [10]).  A literal TAB / LF is legal there and denotes a
+   blank (attribute-value normalisation, section 3.3.3): [att_val] *)
+Definition lit_ok_att (q c : N) : bool := negb ((c =? c_lt) || (c =? c_amp) || (c =? q) || (c =? c_cr)).
+Definition att_char_val (p : lchar) : str :=
+  match snd p with RLit => if (fst p =? 9) || (fst p =? 10) then [32] else u16 (fst p) | _ => u16 (fst p) end.
+Definition att_val (t : ltext) : str := flat_map att_char_val t.
 Definition lchar_ok (lit : N -> bool) (p : lchar) : bool :=
   is_cp_char (fst p) && ref_ok p && match snd p with RLit => lit (fst p) | _ => true end.
 (* the literal sequence "]]>" must not occur in character data *)
@@ -116,7 +119,7 @@ Definition attr_ok (a : lattr) : bool :=
 Fixpoint names_unique (ns : list str) : bool :=
   match ns with [] => true | n :: r => negb (existsb (str_eqb n) r) && names_unique r end.
 Definition attrs_ok (atts : list lattr) : bool := forallb attr_ok atts && names_unique (map la_name atts).
-Definition attr_ev (a : lattr) : str * str := (la_name a, text_val (la_val a)).
+Definition attr_ev (a : lattr) : str * str := (la_name a, att_val (la_val a)).
 
 (* ---- comment / PI / CDATA bodies: code point strings written literally *)
 Definition body_chars_ok (s : list N) : bool := forallb (fun c => is_cp_char c && negb (c =? c_cr)) s.
